@@ -256,25 +256,47 @@ def _run_watched(cmd, data, timeout, stall):
     return lines, status
 
 HANGS = [0]      # calls of the implementation that did not return, in this process
+CONFIRMED = [0]  # ... of which so many were re-run alone with a generous limit before they were believed
+FALSE_HANGS = [0]
 
-def run_exe(cmd, cases, timeout=600, stall=None):
+def run_exe(cmd, cases, timeout=600, stall=None, watch=True):
     """Run one executable over the cases, sharded over the cores.  Returns one output line per
     case; a crash or hang of the process is turned into `(k c8)` (hang) / `(k c7)` (abort) at
     the case where the output stops, and the remaining cases are run in a fresh process.  A hang is
     recognised by the output standing still (`stall` seconds; both executables flush one line per case),
     so a non-terminating call costs seconds, not the overall limit; after three hangs in a shard the rest
-    of the shard is not run any more and reported as hung."""
-    stall = stall or timeout
+    of the shard is not run any more and reported as hung.
+
+    A machine under load can make a call look as if it did not return (a two-byte sweep is 65 536 calls behind
+    one output line).  So: shards that hold sweeps get a long limit; the first hangs of a run are *confirmed* —
+    the history that leads to the stopping case is run again, alone, with a generous limit — and a hang that
+    does not confirm is not a hang: the shard is run again with the generous limit; the shortened limit after a
+    hang applies to the implementation only (`watch`), never to the model, whose functions are total."""
     def one(sh_cases):
-        outs, rest, hangs = [], sh_cases, 0
+        outs, rest, hangs, boost = [], sh_cases, 0, 1
+        has_sweep = any(x.startswith(('A ', 'B ', 'F ')) for x in sh_cases)
+        base = stall or timeout
+        if has_sweep: base = max(base, 300)
         while rest:
-            if HANGS[0] >= 8:
+            if watch and HANGS[0] >= 8:
                 # this run has seen enough calls that do not return: the rest is reported as not run (the hangs
                 # already recorded decide the verdict; waiting out more of them only costs time)
                 outs += ['(k c8)'] * len(rest); break
             data = ('\n'.join(rest) + '\n').encode()
-            lines, status = _run_watched(cmd, data, timeout, stall if HANGS[0] == 0 else min(stall, 12))
-            if status == 'hang': HANGS[0] += 1
+            cur = base * boost
+            if watch and HANGS[0] > 0 and boost == 1: cur = min(base, 60 if has_sweep else 12)
+            lines, status = _run_watched(cmd, data, max(timeout, cur), cur)
+            if status == 'hang' and watch and len(lines) < len(rest) and boost == 1 and CONFIRMED[0] < 2:
+                k = len(lines); j = k
+                while j > 0 and not rest[j].startswith('H'): j -= 1
+                sub = rest[j:k + 1]
+                l2, st2 = _run_watched(cmd, ('\n'.join(sub) + '\n').encode(), 900, 300 if has_sweep else max(2 * base, 90))
+                if st2 == 'ok' and len(l2) >= len(sub):
+                    FALSE_HANGS[0] += 1
+                    boost = 4                     # not a hang: the machine is slow; once more, patiently
+                    continue
+                CONFIRMED[0] += 1
+            if status == 'hang' and watch: HANGS[0] += 1
             if len(lines) >= len(rest):
                 outs += lines[:len(rest)]
                 break
@@ -301,7 +323,7 @@ def run_impl(cases, feat='std', profile='debug', timeout=600):
     return run_exe([build_harness(feat, profile)], cases, timeout, stall=45)
 
 def run_model(cases, feat='std', quirks='asis', timeout=600):
-    return run_exe([build_driver(), feat, quirks], cases, timeout)
+    return run_exe([build_driver(), feat, quirks], cases, timeout, watch=False)
 
 # ---------------------------------------------------------------- token trees
 
